@@ -57,11 +57,14 @@ func c50Scenario(name string, rpcs int, drops bool, snaps int, bound int) vsched
 				mu.Lock()
 				startDone++
 				mu.Unlock()
-				if id == 0 {
-					p.CallServerLoad(loc, "cpu", 1.5)
+				if id < 2 {
+					// two reports of the same named load: the second can land while a
+					// snapshot is reading-and-clearing the first
+					v := 1.5 + float64(id)
+					p.CallServerLoad(loc, "cpu", v)
 					mu.Lock()
 					wantLoadN++
-					wantLoadSum += 1.5
+					wantLoadSum += v
 					mu.Unlock()
 				}
 				var err error
@@ -84,11 +87,14 @@ func c50Scenario(name string, rpcs int, drops bool, snaps int, bound int) vsched
 		}
 		if drops {
 			x.Go("drop", func() {
+				// the same category twice: the second drop can land while a
+				// snapshot is reading-and-clearing a non-zero counter
+				p.CallDropped("cat")
 				p.CallDropped("cat")
 				p.CallDropped("")
 				mu.Lock()
-				wantDrops += 2
-				wantDropsCat++
+				wantDrops += 3
+				wantDropsCat += 2
 				mu.Unlock()
 			})
 		}
@@ -163,5 +169,5 @@ func TestVerif_C50_LoadStore(t *testing.T) {
 		scs = append(scs, c50Scenario("3rpc+drop+2snap", 3, true, 2, 2))
 	}
 	vsched.RunScenarios(t, r, []string{P}, scs)
-	r.Sample(P, map[string]any{"scenario": "2rpc+drop+2snap", "threads": []string{"rpc0: CallStarted; CallServerLoad(cpu,1.5); CallFinished(nil)", "rpc1: CallStarted; CallFinished(err)", "drop: CallDropped(cat); CallDropped(\"\")", "reporter: stats() x2"}})
+	r.Sample(P, map[string]any{"scenario": "2rpc+drop+2snap", "threads": []string{"rpc0: CallStarted; CallServerLoad(cpu,1.5); CallFinished(nil)", "rpc1: CallStarted; CallFinished(err)", "drop: CallDropped(cat) x2; CallDropped(\"\")", "reporter: stats() x2"}})
 }
